@@ -788,7 +788,9 @@ func (s *Stage) cleanStrays(minAge time.Duration) {
 			filePath := strings.TrimSuffix(path, partExt)
 			fileState := s.getFileState(filePath)
 			fileHash := s.getFileHash(filePath)
-			if fileState > stateReceived {
+			if fileState > stateReceived && fileState != stateFailed {
+				// (the partial of a file that failed validation is its
+				// retransmission under way, not a left-over of a delivery)
 				delete = comp == nil || comp.Hash == fileHash
 				deleteCmp = delete && compExists && fileState == stateLogged
 				s.logDebug("Stray partial cache info:", relPath, fileState, fileHash)
